@@ -55,6 +55,29 @@ def seq_spec(pid, level, rule, profile, oracle_factory, nontrivial_fn=None, worl
     return runner.CheckSpec(pid=pid, level=level, rule=rule, run_one=run_one, replay_fn=replay_fn, minimise_fn=minimise_fn, components=COMPONENTS_SEQ, known_matchers=known.MATCHERS, **kw)
 
 
+def _c18_reg():
+    from .oracles import c18
+
+    _REG["C18"] = seq_spec(
+        "C18",
+        "exploration",
+        "seeded SEQ-SIM runs with 'switch' faults: at seeded instants the sequence is switched to a device derived from the current one by a seeded perturbation (renamed; one or several channel timing parameters / limits / EOM fields changed; channel order and ids permuted; reusability, Rydberg level, DMM parameters, max_sequence_duration changed; or another built-in device) with strict True/False, or to a register with the same ids (shifted, scaled, reordered); the run continues on the switched object; non-trivial = a timing-relevant perturbation applied to a sequence that has automatically inserted delays; distinct = distinct concrete op traces",
+        A.make_profile(
+            w_fault=0.8,
+            fault_kinds={"bad": 0.5, "restart": 0, "cache": 0.2, "switch": 6},
+            max_restarts=5,
+            w_observer=0.1,
+            measure_p=0.1,
+        ),
+        lambda: [c18.C18()],
+        nontrivial_fn=c18.nontrivial,
+        world_kw={"bw_bias": 0.75},
+        runs={"quick": 4000, "thorough": 100000},
+        assumptions=["strict=True: identical timeline (slot times, pulses, EOM blocks) and phase references, which implies identical samples", "strict=False: the result is judged against the NEW device's channels with C01's and C02's intrinsic invariants"],
+        expected_probes=["timing_relevant_switch", "strict_switch_accepted_with_timing_change", "nonstrict_switch_changed_timeline", "register_switched"],
+    )
+
+
 def estimate_hook(p_est=0.5, p_cache=0.3):
     """Before an add: ask for the estimate of the very same add (optionally
     with a cache flush in between) so that C03 can compare the two."""
@@ -129,7 +152,7 @@ _REG = {}
 
 
 def _build():
-    from .oracles import c01, c02, c03, c04, c06, c07, c09, c10, c13, c14, c15
+    from .oracles import c01, c02, c03, c04, c06, c07, c09, c10, c13, c14, c15, c18
 
     _REG["C02"] = seq_spec(
         "C02",
@@ -377,6 +400,7 @@ def combine(pid, a, b, every=3, **kw):
 
 
 def _build2():
+    _c18_reg()
     c04_tmpl = tmpl_spec(
         "C04",
         "exploration",
